@@ -135,6 +135,165 @@ func c03NumTextsOk(v cty.Value) bool {
 	return true
 }
 
+// c03TyCapFree: no capsule type occurs
+func c03TyCapFree(t cty.Type) bool {
+	switch {
+	case t.IsCapsuleType():
+		return false
+	case t.IsListType() || t.IsMapType() || t.IsSetType():
+		return c03TyCapFree(t.ElementType())
+	case t.IsTupleType():
+		for _, e := range t.TupleElementTypes() {
+			if !c03TyCapFree(e) {
+				return false
+			}
+		}
+	case t.IsObjectType():
+		at := t.AttributeTypes()
+		for _, k := range sortedKeys(at) {
+			if !c03TyCapFree(at[k]) {
+				return false
+			}
+		}
+	}
+	return true
+}
+
+func c03EncTy(t cty.Type) cty.Type {
+	switch {
+	case t.IsSetType() || t.IsListType():
+		return cty.List(c03EncTy(t.ElementType()))
+	case t.IsMapType():
+		return cty.Map(c03EncTy(t.ElementType()))
+	case t.IsTupleType():
+		ets := t.TupleElementTypes()
+		out := make([]cty.Type, len(ets))
+		for i, e := range ets {
+			out[i] = c03EncTy(e)
+		}
+		return cty.Tuple(out)
+	case t.IsObjectType():
+		at := t.AttributeTypes()
+		out := map[string]cty.Type{}
+		for _, k := range sortedKeys(at) {
+			out[k] = c03EncTy(at[k])
+		}
+		return cty.Object(out)
+	}
+	return t
+}
+
+// c03Canon: the transliteration of a mark-free value through the public API: every set is
+// replaced by the list of its members in iteration order (AsValueSlice), at every depth.
+func c03Canon(v cty.Value) cty.Value {
+	t := v.Type()
+	et := c03EncTy(t)
+	if v.IsNull() {
+		return cty.NullVal(et)
+	}
+	if !v.IsKnown() {
+		if et.Equals(t) {
+			return v
+		}
+		// the refinement of an unknown collection is kept by the wire form of the payload only;
+		// unknown set-typed values are excluded by the caller
+		return cty.UnknownVal(et)
+	}
+	switch {
+	case t.IsSetType() || t.IsListType():
+		vs := v.AsValueSlice()
+		if len(vs) == 0 {
+			return cty.ListValEmpty(et.ElementType())
+		}
+		out := make([]cty.Value, len(vs))
+		for i, e := range vs {
+			out[i] = c03Canon(e)
+		}
+		return cty.ListVal(out)
+	case t.IsMapType():
+		m := v.AsValueMap()
+		if len(m) == 0 {
+			return cty.MapValEmpty(et.ElementType())
+		}
+		out := map[string]cty.Value{}
+		for _, k := range sortedKeys(m) {
+			out[k] = c03Canon(m[k])
+		}
+		return cty.MapVal(out)
+	case t.IsTupleType():
+		vs := v.AsValueSlice()
+		out := make([]cty.Value, len(vs))
+		for i, e := range vs {
+			out[i] = c03Canon(e)
+		}
+		return cty.TupleVal(out)
+	case t.IsObjectType():
+		m := v.AsValueMap()
+		out := map[string]cty.Value{}
+		for _, k := range sortedKeys(m) {
+			out[k] = c03Canon(m[k])
+		}
+		return cty.ObjectVal(out)
+	}
+	return v
+}
+
+// c03HasUnknownColl: an unknown value of a type that contains a set type occurs (c03Canon cannot
+// rebuild its refinement through the public API)
+func c03HasUnknownSetTyped(v cty.Value) bool {
+	if v.IsMarked() {
+		v, _ = v.Unmark()
+	}
+	if !v.IsKnown() {
+		return !c03TySetFree(v.Type())
+	}
+	if v.IsNull() {
+		return false
+	}
+	t := v.Type()
+	if t.IsListType() || t.IsSetType() || t.IsTupleType() || t.IsMapType() || t.IsObjectType() {
+		for it := v.ElementIterator(); it.Next(); {
+			_, e := it.Element()
+			if c03HasUnknownSetTyped(e) {
+				return true
+			}
+		}
+	}
+	return false
+}
+
+// c03CanonCase: correspondence of the transliteration + the laws it transfers, on the real code:
+// hash bytes of v = hash bytes of its transliteration (C03.hash_with_sets).
+func c03CanonCase(ctx *Ctx, v cty.Value) {
+	capFree := c03TyCapFree(v.Type())
+	clean := !v.ContainsMarked()
+	fl := b01(capFree) + " " + b01(clean)
+	_, quot := true, true
+	ints := true
+	try(func() { c03Walk(v, &ints, &quot) })
+	setFree := c03TySetFree(v.Type())
+	ctx.Tag(fmt.Sprintf("d03b:canon capFree=%s markFree=%s quotable=%s setFree=%s", b01(capFree), b01(clean), b01(quot), b01(setFree)))
+	if !capFree || !clean || !quot {
+		ctx.Add("c03.canon", fl+" unmodelled", encVal(v))
+		return
+	}
+	if c03HasUnknownSetTyped(v) {
+		return
+	}
+	var cv cty.Value
+	if pn, _ := try(func() { cv = c03Canon(v) }); pn {
+		return
+	}
+	ctx.Add("c03.canon", fl+" "+encVal(cv), encVal(v))
+	h1, h2 := c03HashBytes(v), c03HashBytes(cv)
+	ctx.Eval("d03b canon "+encVal(v), !setFree)
+	if h1 != h2 {
+		ctx.Fail(Failure{Site: "d03b-transliteration", Sig: "hash-text-differs-from-transliteration",
+			What:  "the set hash text of a value differs from the hash text of the value with every set replaced by the list of its members in iteration order — contradicts C03.hash_with_sets",
+			Input: encVal(v), GoLit: c03Lits(v), Outcome: encStr(h1) + " vs " + encStr(h2)})
+	}
+}
+
 // c03D03bPool: called for every pool the value half judges.
 func c03D03bPool(ctx *Ctx, p c03Pool) {
 	n := len(p.vals)
@@ -149,6 +308,7 @@ func c03D03bPool(ctx *Ctx, p c03Pool) {
 	hb := make([]string, n)
 	clean := true
 	for i, v := range vals {
+		c03CanonCase(ctx, v)
 		hb[i] = c03HashBytes(v)
 		nt := false
 		try(func() { nt = c03NumTextsOk(v) })
